@@ -50,7 +50,7 @@ struct G {
     cur_name: String,
 }
 
-const WORDS: [&str; 10] = ["hello", "OK", "KO", "a", "", "tab\\there", "q\\\"uote", "esc\\\\", "\\x41B", "nul\\0in"];
+const WORDS: [&str; 12] = ["hello", "OK", "KO", "a", "", "tab\\there", "q\\\"uote", "esc\\\\", "\\x41B", "nul\\0in", "h\u{e9}llo", "\u{65e5}\u{672c} ' it's"];
 const CHARS: [&str; 8] = ["'a'", "'Z'", "'0'", "' '", "'\\n'", "'\\t'", "'\\\\'", "'\\''"];
 
 impl G {
@@ -77,7 +77,17 @@ impl G {
         self.visible().into_iter().filter(|s| s.ty == Ty::Char && !s.konst).collect()
     }
     fn lit(&mut self) -> String {
-        match self.r.below(12) {
+        match self.r.below(13) {
+            12 => match self.r.below(24) {
+                // extremes of the constant evaluator, quotes and multi-byte characters in character constants
+                0 | 1 => "2147483647".into(),
+                2 | 3 => "(-2147483647 - 1)".into(),
+                4 | 5 => "-1".into(),
+                6 => "'\"'".into(),
+                7 => "'\\\"'".into(),
+                8 | 9 => "'\u{e9}'".into(),
+                _ => "32768".into(),
+            },
             0 => "0".into(),
             1 => "1".into(),
             2 => "255".into(),
@@ -176,7 +186,12 @@ impl G {
             };
         }
         let a = self.expr(depth - 1);
-        match self.r.below(16) {
+        match self.r.below(18) {
+            // the 6502 has no multiplier: products and quotients exist between constants only
+            16 => {
+                let (l, r) = (self.lit(), self.lit());
+                format!("{} + ({} {} {})", a, l, *self.pick(&["*", "/", "*", "/", "-", "<<"]), r)
+            }
             0 => format!("{} + {}", a, self.expr(depth - 1)),
             1 => format!("{} - {}", a, self.expr(depth - 1)),
             2 => format!("{} & {}", a, self.expr(depth - 1)),
@@ -396,7 +411,7 @@ impl G {
             }
             12 => {
                 let c = self.cond(1);
-                out.push_str(&format!("{}if ({}) {};\n", ind, c, if self.in_loop > 0 && self.r.chance(1, 2) { "break" } else { "X++" }));
+                out.push_str(&format!("{}if ({}) {};\n", ind, c, if self.in_loop > 0 && self.r.chance(1, 2) { if self.r.chance(1, 2) { "break" } else { "continue" } } else { "X++" }));
             }
             13 => {
                 let c = self.cond(1);
@@ -452,8 +467,15 @@ impl G {
                     }
                     used.push(v);
                     out.push_str(&format!("{}  case {}:\n", ind, v));
+                    if self.in_loop > 0 && self.r.chance(1, 5) {
+                        // leave or restart the enclosing loop from inside a case
+                        let c = self.cond(0);
+                        let w = if self.r.chance(1, 2) { "continue" } else { "break" };
+                        out.push_str(&format!("{}    if ({}) {};\n", ind, c, w));
+                    }
                     if self.r.chance(3, 4) {
-                        self.stmt(0, &format!("{}    ", ind), out);
+                        let d = if depth > 1 && self.r.chance(1, 5) { 1 } else { 0 };
+                        self.stmt(d, &format!("{}    ", ind), out);
                         if self.r.chance(2, 3) {
                             out.push_str(&format!("{}    break;\n", ind));
                         }
@@ -702,6 +724,17 @@ pub fn progen(seed: u64) -> Program {
             protos.push(f.clone());
         }
     }
+    // functions that are only ever declared: calling them is fine (the code comes from elsewhere), an
+    // inline one has no code to expand
+    for i in 0..g.r.below(3) {
+        if g.r.chance(1, 2) {
+            let returns = g.r.chance(1, 2);
+            let inl = if g.r.chance(1, 6) { "inline " } else { "" };
+            let np = g.r.usize_below(2);
+            out.push_str(&format!("{}{} ext{}({});\n", inl, if returns { "char" } else { "void" }, i, if np == 1 { "char a0" } else { "" }));
+            protos.push(Func { name: format!("ext{}", i), params: vec![Ty::Char; np], returns });
+        }
+    }
     g.funcs = protos;
     let mut order: Vec<usize> = (0..decls.len()).collect();
     for i in (1..order.len()).rev() {
@@ -738,4 +771,54 @@ pub fn progen(seed: u64) -> Program {
         g.global(i + 500, &mut out);
     }
     Program { name: format!("progen/{:016x}", seed), source: out.into_bytes(), args, includes: Vec::new() }
+}
+
+/// Size dimension: a valid program of 50-400 KB (a graphics table, hundreds of functions, a very long
+/// function, hundreds of initialised globals). Everything else in the workload is below 16 KiB; limits,
+/// budgets and buffers that only matter for large inputs are behind this generator.
+pub fn big(seed: u64) -> Program {
+    let mut r = Rng::new(seed ^ 0xb16);
+    let mut out = String::new();
+    let shape = r.below(5);
+    match shape {
+        0 | 1 => {
+            let n = *r.pick(&[8_000u64, 20_000, 40_000, 48_000, 64_000]);
+            out.push_str("const unsigned char gfx[] = {\n");
+            for i in 0..n / 16 {
+                let row: Vec<String> = (0..16).map(|j| format!("0x{:02x}", (i * 7 + j + seed) & 255)).collect();
+                out.push_str(&row.join(", "));
+                out.push_str(if i + 1 == n / 16 { "\n" } else { ",\n" });
+            }
+            out.push_str("};\nchar x;\nvoid main() { x = gfx[X]; }\n");
+        }
+        2 => {
+            let n = 400 + r.below(1200);
+            out.push_str("char g, h;\n");
+            for i in 0..n {
+                out.push_str(&format!("void f{}() {{ g = g + {}; if (g) h++; }}\n", i, i & 255));
+            }
+            out.push_str(&format!("void main() {{ f0(); f{}(); }}\n", n - 1));
+        }
+        3 => {
+            let n = 1500 + r.below(3000);
+            out.push_str("char g, h;\nvoid main() {\n");
+            for i in 0..n {
+                out.push_str(&format!("  g = g + {}; if (g == {}) h++;\n", i & 255, (i * 3) & 255));
+            }
+            out.push_str("}\n");
+        }
+        _ => {
+            let n = 300 + r.below(500);
+            for i in 0..n {
+                out.push_str(&format!("const char t{}[] = \"string number {}\";\nchar v{};\n", i, i, i));
+            }
+            out.push_str("char *sink;\nvoid main() {\n");
+            for i in 0..n {
+                out.push_str(&format!("  sink = t{}; v{} = sink[Y];\n", i, i % 100));
+            }
+            out.push_str("}\n");
+        }
+    }
+    let args = vec![format!("-O{}", r.below(4))];
+    Program { name: format!("big/{:016x}", seed), source: out.into_bytes(), args, includes: Vec::new() }
 }
